@@ -1,5 +1,5 @@
 //! Input histories.
-use crate::gen::kname;
+use crate::gen::keys;
 use proptest::prelude::*;
 use serde_json::Value;
 
@@ -8,8 +8,20 @@ pub enum Ev {
     Press(u16),
     Release(u16),
     Repeat(u16),
+    /// press immediately followed by release in one input call (KeyValue::Tap)
+    Tap(u16),
     /// advance time by this many milliseconds
     Gap(u32),
+}
+
+fn kname(code: u16) -> String {
+    keys().names.iter().find(|(_, c)| *c == code).map(|(n, _)| n.to_string()).unwrap_or_else(|| format!("#{code}"))
+}
+fn kcode(name: &str) -> Option<u16> {
+    if let Some(n) = name.strip_prefix('#') {
+        return n.parse().ok();
+    }
+    keys().names.iter().find(|(n, _)| *n == name).map(|(_, c)| *c)
 }
 
 pub fn hist_to_json(h: &[Ev]) -> Value {
@@ -20,6 +32,7 @@ pub fn hist_to_json(h: &[Ev]) -> Value {
                     Ev::Press(k) => format!("d:{}", kname(*k)),
                     Ev::Release(k) => format!("u:{}", kname(*k)),
                     Ev::Repeat(k) => format!("r:{}", kname(*k)),
+                    Ev::Tap(k) => format!("tap:{}", kname(*k)),
                     Ev::Gap(g) => format!("t:{g}"),
                 })
             })
@@ -33,9 +46,10 @@ pub fn hist_from_json(v: &Value) -> Option<Vec<Ev>> {
         let s = e.as_str()?;
         let (k, val) = s.split_once(':')?;
         out.push(match k {
-            "d" => Ev::Press(crate::gen::kc(val)),
-            "u" => Ev::Release(crate::gen::kc(val)),
-            "r" => Ev::Repeat(crate::gen::kc(val)),
+            "d" => Ev::Press(kcode(val)?),
+            "u" => Ev::Release(kcode(val)?),
+            "r" => Ev::Repeat(kcode(val)?),
+            "tap" => Ev::Tap(kcode(val)?),
             "t" => Ev::Gap(val.parse().ok()?),
             _ => return None,
         });
